@@ -114,6 +114,20 @@ HoursToMonthContinuous ==   \* one grid step (1/GridDen h) moves the result by a
 MonthEndsAtIntegers ==
   stage = "months" => LET r == HoursToMonthCode(MonthEndRef(k) * GridDen, GridDen) IN r[2] = r[3] \/ r[2] = 0
 
+\* ---- ground_loads.process_two_day_loads : the 48 hours (day before + day of) around a monthly peak day ----
+\* month m (1..12), peak day d (0-based day of the month); hour-of-year indices 0..8759, wrapping to 31 December for 1 January
+WindowStart(m, d) == YearSumTo(m - 1) + (d - 1) * 24            \* may be -24
+TwoDayWindow(m, d) == [j \in 1..48 |-> LET h == WindowStart(m, d) + j - 1 IN IF h < 0 THEN h + 8760 ELSE h]
+WindowOK == stage = "months" /\ k <= 12 =>
+   \A d \in 0..(DaysRef[k] - 1) :
+      LET w == TwoDayWindow(k, d) IN
+      /\ \A j \in 1..47 : w[j + 1] = (w[j] + 1) % 8760                        \* consecutive hours
+      /\ w[48] = YearSumTo(k - 1) + d * 24 + 23                                \* ends with the last hour of the peak day
+      /\ (w[1] > w[48]) = (k = 1 /\ d = 0)                                      \* wraps only for 1 January
+EmitWindows == (stage = "months" /\ k <= 12) =>
+   PrintT(ToJson([t |-> "window", m |-> k, first |-> [d \in 0..(DaysRef[k] - 1) |-> TwoDayWindow(k, d)[1]],
+                  last |-> [d \in 0..(DaysRef[k] - 1) |-> TwoDayWindow(k, d)[48]]]))
+
 \* tables for the replay into the real functions
 EmitMonths == stage = "months" => PrintT(ToJson([t |-> "month", m |-> k, days |-> Days(k), first |-> MonthStartRef(k) + 1, last |-> MonthEndRef(k)]))
 EmitHours == stage = "hours" => PrintT(ToJson([t |-> "hour", h |-> k, mdh |-> HourToMDHRef(k)]))
